@@ -79,6 +79,7 @@ fn interleaving_hash(h: &History) -> u64 {
             },
             Kind::TimerArm { .. } => "TA",
             Kind::TimerFire { .. } => "TF",
+            Kind::TimerCmp { .. } => "TC",
             Kind::OpCancel { .. } => "OC",
             Kind::HttpSend { .. } => "HS",
             Kind::ServerHandled { .. } => "SH",
